@@ -65,6 +65,34 @@ fn load(src_dir: &Path) -> R<(Vec<Src>, Vec<String>, usize)> {
     Ok((srcs, skipped, stripped))
 }
 
+/// The fields of the run-time structures (verif_hooks / test items stripped): every piece of state the interpreter has.  A field that is
+/// not in the list a property's model was written against is state that model does not cover.
+fn state_fields(db: &ty::TypeDb) -> LeanFile {
+    const STRUCTS: &[&str] = &[
+        "Vm", "ObjFiber", "CallFrame", "ExcHandler", "ObjClass", "ObjInstance", "ObjBoundMethod", "ObjString", "ObjStringStore", "ObjHashMap", "ObjVec", "ObjTuple",
+        "ObjRange", "ObjRangeIter", "ObjVecIter", "ObjTupleIter", "ObjStringIter", "ObjUpvalue", "ObjClosure", "ObjFunction", "ObjNative", "ObjModule", "Chunk",
+        "Heap", "GcBox", "Stack", "Compiler", "Parser", "Scanner", "CoreClassStore", "ClassDef",
+    ];
+    let mut l = LeanFile::new("StateFields.lean");
+    l.comment("Table J: the fields of the run-time structures, in declaration order: (struct, field, type as written).");
+    let mut entries = Vec::new();
+    for sname in STRUCTS {
+        match db.structs.get(*sname) {
+            Some(v) => {
+                for (k, sd) in v.iter().enumerate() {
+                    let label = if v.len() == 1 { sname.to_string() } else { format!("{}#{}", sname, k) };
+                    for (f, t) in &sd.fields {
+                        entries.push(format!("({}, {}, {})", lean_str(&label), lean_str(f), lean_str(&format!("{}", t))));
+                    }
+                }
+            }
+            None => entries.push(format!("({}, {}, {})", lean_str(sname), lean_str("<struct not found>"), lean_str(""))),
+        }
+    }
+    l.def_list("stateFields", "List (String × String × String)", &entries);
+    l
+}
+
 fn run(src_dir: &Path, out_dir: &Path) -> R<()> {
     let (srcs, skipped, stripped) = load(src_dir)?;
     let db = ty::TypeDb::build(&srcs);
@@ -99,6 +127,7 @@ fn run(src_dir: &Path, out_dir: &Path) -> R<()> {
     lean_files.push(panics.to_lean().finish());
     lean_files.push(messages.to_lean().finish());
     lean_files.push(cfgs.to_lean().finish());
+    lean_files.push(state_fields(&db).finish());
 
     let facts = jobj(vec![
         ("generator", js("xlate")),
